@@ -5,6 +5,8 @@
 //! underneath) is walked through an exchange by a scripted raw peer, and after every step
 //! `is_open()`, `poll_ready()` and `can_share()` are read at the same instant.
 //!
+//! line: `conn h2 <op> …`: the same for an HTTP/2 `HttpConnection` against a real hyper HTTP/2 server on the other end of the duplex
+//!       (ops `send` | `poll` | `close` the server goes away | `idle` nothing): it can be shared, and it reports open until the peer is gone.
 //! line: `conn <op> <op> …`   op: `send` request | `head` peer sends the response head and part of the body
 //!       | `rest` peer sends the rest of the body | `poll` poll the response future | `body` read the body to its end
 //!       | `dropresp` drop the response / its body unread | `close` peer closes
@@ -23,6 +25,12 @@ use tokio::io::{AsyncReadExt, AsyncWriteExt};
 const OPS: &[&str] = &["send", "head", "rest", "poll", "body", "dropresp", "close", "poll", "head", "send"];
 
 pub fn gen(r: &mut Rng, i: u64) -> String {
+    if i % 5 == 4 {
+        let n = r.range(1, 8);
+        let mut ops: Vec<&str> = (0..n).map(|_| *r.pick(&["send", "poll", "idle", "send", "poll", "close"])).collect();
+        if r.chance(1, 2) { ops.push("close"); ops.push("idle"); }
+        return format!("h2 {}", ops.join(" "));
+    }
     if i % 4 == 0 {
         // a well-formed exchange, cut short at a random point, possibly followed by a second one
         let full = ["send", "head", "poll", "rest", "body", "send", "head", "poll", "rest", "body"];
@@ -37,7 +45,48 @@ pub fn gen(r: &mut Rng, i: u64) -> String {
 
 async fn settle() { for _ in 0..4 { tokio::time::sleep(std::time::Duration::from_millis(1)).await; } }
 
+fn run_h2(ops: Vec<String>) -> String {
+    let rt = tokio::runtime::Builder::new_current_thread().enable_all().start_paused(true).build().unwrap();
+    rt.block_on(async move {
+        let (a, b) = DuplexStream::new(1 << 16);
+        let server = tokio::spawn(async move {
+            let svc = hyper::service::service_fn(|_req: http::Request<hyper::body::Incoming>| async { Ok::<_, std::convert::Infallible>(http::Response::new(Body::empty())) });
+            let _ = hyper::server::conn::http2::Builder::new(hyperdriver::bridge::rt::TokioExecutor::new())
+                .serve_connection(hyperdriver::bridge::io::TokioIo::new(b), svc).await;
+        });
+        let mut builder = hyper::client::conn::http2::Builder::new(hyperdriver::bridge::rt::TokioExecutor::new());
+        let mut conn = match Protocol::<DuplexStream, Body>::connect(&mut builder, a, HttpProtocol::Http2).await {
+            Ok(c) => c,
+            Err(_) => return "handshake-failed".to_string(),
+        };
+        let mut pending = vec![];
+        let mut out = vec![];
+        for op in &ops {
+            match op.as_str() {
+                "send" => {
+                    let req = http::Request::builder().uri("http://example.com/x").version(http::Version::HTTP_2).body(Body::empty()).unwrap();
+                    pending.push(Box::pin(conn.send_request(req)));
+                }
+                "poll" => {
+                    let mut cx = Context::from_waker(Waker::noop());
+                    pending.retain_mut(|f| f.as_mut().poll(&mut cx).is_pending());
+                }
+                "close" => { server.abort(); }
+                _ => {}
+            }
+            settle().await;
+            let open = conn.is_open();
+            let share = conn.can_share();
+            let mut cx = Context::from_waker(Waker::noop());
+            let ready = match conn.poll_ready(&mut cx) { Poll::Ready(Ok(())) => 'R', Poll::Ready(Err(_)) => 'E', Poll::Pending => 'P' };
+            out.push(format!("{}{ready}{}", open as u8, share as u8));
+        }
+        out.join(" ")
+    })
+}
+
 pub fn run(toks: &[&str]) -> String {
+    if toks.first() == Some(&"h2") { return run_h2(toks[1..].iter().map(|s| s.to_string()).collect()); }
     let rt = tokio::runtime::Builder::new_current_thread().enable_all().start_paused(true).build().unwrap();
     let ops: Vec<String> = toks.iter().map(|s| s.to_string()).collect();
     rt.block_on(async move {
